@@ -280,3 +280,20 @@ def strategy(tier):
     gk = st.integers(0, 39).map(lambda v: "interpreter" if v == 0 else ("fresh-module" if v <= 10 else "none"))
     return st.fixed_dictionaries({"libs": st.integers(1, 3), "global": gk, "verify": st.sampled_from(["every", "every", "end"]),
                                   "ops": wone_of(st.lists(wone_of(add, add, add, add, look, unk), min_size=1, max_size=25), sized_lists(wone_of(add, add, add, add, look, unk), 6, 25))})
+
+
+EXHAUSTIVE_DOMAIN = ("every sequence of 1..3 add_tag calls (thorough: 1..4) on one local library over the name set {A, B, NONE, add_tag, "
+                     "itemize, get_tag_name, __class__, __dict__, _tag_names, _tag_counter, '', 'a b'}, verified after every op and "
+                     "once more with verification only at the end")
+
+
+def exhaustive(tier):
+    import itertools
+    names = ["A", "B", "NONE", "add_tag", "itemize", "get_tag_name", "__class__", "__dict__", "_tag_names", "_tag_counter", "", "a b"]
+    maxlen = 3 if tier == "quick" else 4
+    for n in range(1, maxlen + 1):
+        for seq in itertools.product(names, repeat=n):
+            ops = [{"op": "add", "lib": 0, "name": nm} for nm in seq]
+            yield {"libs": 1, "global": "none", "verify": "every", "ops": ops}
+            if n >= 2:
+                yield {"libs": 1, "global": "none", "verify": "end", "ops": ops}
